@@ -200,6 +200,10 @@ func (rs *bodyStream) read(p []byte) (int, error) {
 	var err error
 	// read from the pre-read buffer
 	if int(rs.prefetchedBytes.Size()) > rs.offset {
+		if rs.contentLength >= 0 && len(p) > rs.contentLength-rs.offset {
+			// the prefetch may hold bytes the peer sent beyond the declared length: they are not body
+			p = p[:rs.contentLength-rs.offset]
+		}
 		n, err = rs.prefetchedBytes.Read(p)
 		rs.offset += n
 		if rs.offset == rs.contentLength {
@@ -338,6 +342,10 @@ func (rs *bodyStream) skipRest() error {
 	}
 	// max value of pSize is 8193, it's safe.
 	pSize := int(rs.prefetchedBytes.Size())
+	if rs.contentLength >= 0 && pSize > rs.contentLength {
+		// the prefetch took bytes that follow this body: they are lost for the next message on the connection
+		return errs.NewPublic("bytes beyond the declared content length were prefetched")
+	}
 	if rs.contentLength <= pSize || rs.offset == rs.contentLength {
 		return nil
 	}
